@@ -86,6 +86,11 @@ def h_distribution(e, cfg):
             e.oblige_eq("poisson:logpmf-formula", got, obj(np.array([exp], dtype=object), (1,)))
         elif claim == "exp-log":
             e.oblige_eq("poisson:pmf=exp(logpmf)", st.Poisson.pmf(k, lam), np.frompyfunc(T.exp_, 1, 1)(e.read(st.Poisson.logpmf(k, lam))))
+        elif claim == "exp-log-large-support":
+            # concrete large counts (their factorials leave the float32 range: concrete sub-terms run on the real float32 kernels) x symbolic rate
+            kk = torch.tensor([35.0, 40.0, 60.0])
+            lam2 = e.sym((1,), torch.float32, "lam2", lo=25, hi=35)
+            e.oblige_eq("poisson:pmf=exp(logpmf)", st.Poisson.pmf(kk, lam2), np.frompyfunc(T.exp_, 1, 1)(e.read(st.Poisson.logpmf(kk, lam2))), split=True)
         elif claim == "logcdf":
             e.oblige_eq("poisson:logcdf=log(cdf)", st.Poisson.logcdf(k, lam), np.frompyfunc(T.log_, 1, 1)(e.read(st.Poisson.cdf(k, lam))))
         else:
@@ -218,7 +223,7 @@ def checks(tier):
     ln = [dict(dt=dt) for dt in (1.0, 0.5, 1.3)]
     ds = []
     for d in ("poisson", "normal", "lognormal"):
-        claims = ["logdensity-formula", "exp-log", "logcdf", "moments"] if d == "poisson" else ["density-formula", "exp-log", "logcdf", "cdf-formula", "params-roundtrip"]
+        claims = ["logdensity-formula", "exp-log", "exp-log-large-support", "logcdf", "moments"] if d == "poisson" else ["density-formula", "exp-log", "logcdf", "cdf-formula", "params-roundtrip"]
         for c in claims:
             if d == "lognormal" and c == "params-roundtrip":
                 continue          # needs exp(log(y)/2) = sqrt(y): beyond the instantiated axioms (listed as uncovered)
